@@ -177,7 +177,19 @@ def run_case(case):
                 counters['complete_checkpoints_found'] += 1
         return complete_ones
 
+    def reader_flow(cpdir):
+        # the documented idiom of a second flow that starts from the checkpoint: Flow(checkpoint(name), ...)
+        d_ = lab.df()
+        out = lab.run([d_.checkpoint('c%d' % (ncp - 1), checkpoint_path=cpdir), d_.update_package(title='reader')])
+        return {'ok': out.ok, 'rows': [len(r) for r in out.results] if out.ok else None}
+
     def recover(cpdir, complete_before, what):
+        if (ncp - 1) not in complete_before and boot.rng(case['seed'], 'C08', 'reader', what).random() < 0.5:
+            # no usable last checkpoint: a reader flow must not create one out of nothing
+            crashlab.in_child(lambda: reader_flow(cpdir), os.path.join(scratch, 'rep.json'))
+            cov['mode']['reader_flow_after_interruption'] = cov['mode'].get('reader_flow_after_interruption', 0) + 1
+            now = post_crash(cpdir, what + ', then a reader flow Flow(checkpoint(name), ...)')
+            complete_before = set(complete_before) | now
         code, rep = crashlab.in_child(lambda: run_plain(cpdir), os.path.join(scratch, 'rep.json'))
         counters['recoveries_compared'] += 1
         if code != 0 or not rep or not rep.get('ok'):
